@@ -83,6 +83,16 @@ def applyPerm (fs : List Flow) (perm : List Nat) : List Flow := perm.filterMap (
 def fmtAnswer (a : Answer) : String :=
   s!"found={if a.found then 1 else 0} u={fmtList a.user} s={fmtList a.sysStart} e={fmtList a.sysEnd}"
 
+/-- sorted, de-duplicated names -/
+def selKey (names : List String) : String :=
+  fmtList ((names.mergeSort (fun a b => a ≤ b)).eraseDups)
+
+/-- selections over all load orders (`!` = the load failed), sorted and de-duplicated -/
+def possible (fs : List Flow) (t : Txn) : List String :=
+  (((perms fs).map fun cfg => match build cfg with
+      | .ok ft => selKey (observe ft t).user
+      | .error _ => "!").mergeSort (fun a b => a ≤ b)).eraseDups
+
 structure RunSt where
   tree : Tree Nat := []
   flows : List Flow := []          -- as declared
@@ -112,6 +122,14 @@ def runStep (s : RunSt) (line : String) : RunSt × String :=
       ({ s with ft := some ft },
         "r=" ++ String.intercalate "," (rs.map fun r => match r with | none => "ok" | some e => fmtAddErr e))
     | none => (s, "bad-op")
+  | "eng" :: "req" :: ws =>
+    match parseReq false ws with
+    | none => (s, "bad-op")
+    | some t =>
+      -- the YAML loader skips a flow without filter URL
+      let fs := s.flows.filter (fun f => f.kind == .user && f.url != "")
+      if fs.isEmpty || fs.length > 4 then (s, "unsupported") else
+      (s, s!"poss={String.intercalate "|" (possible fs t)} eng=in n=ok")
   | "req" :: ws =>
     match parseReq false ws, s.ft with
     | some t, some ft => (s, fmtAnswer (observe ft t))
@@ -137,6 +155,7 @@ structure JudgeSt where
   flows : List Flow := []
   ins : List (List Part × Nat) := []
   looks : List (String × List Part × List Nat) := []
+  engs : List EngObs := []
   cur : Option Round := none
   rounds : List Round := []                       -- finished rounds, newest first
   bad : Option String := none
@@ -167,12 +186,18 @@ def judgeStep (s : JudgeSt) (op out : String) : JudgeSt :=
     | some perm, some r =>
       let s := s.flush
       let fs := applyPerm s.flows perm
-      let rs := r.splitOn ","
+      let rs := if r == "" then [] else r.splitOn ","
       if rs.length != fs.length then { s with bad := some ("load-answer-length:" ++ pctEnc out) } else
       -- the observable configuration: the flows the implementation accepted, in load order
       let cfg := (fs.zip rs).filterMap fun (f, r) => if r == "ok" then some f else none
       { s with cur := some { cfg := cfg, reqs := [] } }
     | _, _ => if out == "bad-op" then s else { s with bad := some ("unparsable-output:" ++ pctEnc out) }
+  | "eng" :: "req" :: ws =>
+    if out == "unsupported" then s else
+    match parseReq false ws, kv (words out) "poss", kv (words out) "eng", kv (words out) "n" with
+    | some t, some poss, some e, some n =>
+      { s with engs := s.engs ++ [⟨op, s.flows.filter (fun f => f.kind == .user && f.url != ""), t, poss.splitOn "|", e == "in", n == "ok"⟩] }
+    | _, _, _, _ => if out == "bad-op" then s else { s with bad := some ("unparsable-output:" ++ pctEnc out) }
   | "req" :: ws | "res" :: ws =>
     let isResp := (words op).head? == some "res"
     match s.cur, parseReq isResp ws with
@@ -189,7 +214,7 @@ def judgeFinish (s : JudgeSt) : String :=
   | some b => s!"fail - {b}"
   | none =>
     let s := s.flush
-    let vs := trieVerdicts s.ins s.looks ++ caseVerdicts s.rounds.reverse
+    let vs := trieVerdicts s.ins s.looks ++ caseVerdicts s.rounds.reverse ++ engVerdicts s.engs
     -- an unclassified failure always wins; otherwise the first classified one
     match vs.find? (fun v => v.finding == "-") with
     | some v => s!"fail - {v.msg}"
